@@ -78,6 +78,10 @@ class StmtMixin:
                 else:
                     continue
             if z3.is_expr(xa):
+                if z3.is_expr(xb) and xa.sort() != xb.sort():
+                    # the same operation recorded with differently typed operands on the two paths (e.g. a call through
+                    # an interface-typed argument): the recorded value is dropped, the counter is kept
+                    continue
                 m.ghost[k] = xa if xa.eq(xb) else z3.If(c, xa, xb)
             elif xa == xb:
                 m.ghost[k] = xa
